@@ -154,7 +154,7 @@ def reducer_dtype(red, dtype):
         return "bool"
     if red in ("min", "max"):
         return dtype
-    if dtype.startswith("float"):
+    if dtype.startswith("float") or dtype.startswith("complex"):
         return dtype
     return "uint64" if dtype.startswith("uint") else "int64"
 
@@ -176,9 +176,11 @@ def expect_reduce(ref, what, red, dtype):
 def fam_reduce_ragged(rng):
     """C03 on ragged arrays.  argmin/argmax are driven only along the innermost axis, or the axis above it when
     no list level is optional and no IndexedArray sits in between (known findings KF-C03-argpos-*)"""
-    T = gen_pure(rng, rng.randint(0, 3))
+    T = gen_pure(rng, rng.randint(0, 3), leaf=(["complex128", "complex128", "complex64"] if rng.random() < 0.2 else None))
     depth, dtype = R.list_depth(T)
     red = rng.choice(REDUCERS)
+    if dtype == "complex64" and red == "prod":
+        return None          # (products of float32 pairs are not exact for the generated values)
     vals = [L.gen_value(rng, T) for _ in range(L.toplen(rng, 0, 4))]
     isarg = red in ("argmin", "argmax")
     if red in ("min", "max", "argmin", "argmax") and "nan" in repr(vals):
@@ -195,6 +197,8 @@ def fam_reduce_ragged(rng):
             allow_indexed = False
     lay = L.Enc(rng, allow_indexed=allow_indexed).encode(vals, T)
     mask, keep = rng.random() < 0.4, rng.random() < 0.3
+    if dtype.startswith("complex") and red in ("min", "max"):
+        mask = True          # (the identity of a complex minimum / maximum is not defined by the property)
     ref = R.reduce_typed(vals, T, axis, red, mask, keep)
     line = "reduce %s %d %d %d %s" % (red, axis, mask, keep, lay.tokens())
     return Case(line, expect_reduce(ref, "%s(axis=%d, mask_identity=%s, keepdims=%s) of %r" % (red, axis, mask, keep, vals), red, dtype),
@@ -203,15 +207,19 @@ def fam_reduce_ragged(rng):
 
 def fam_reduce_rect(rng):
     """C03 on rectilinear arrays (RegularArray chains and n-dimensional NumpyArray): NumPy's result, every reducer and axis"""
-    T = gen_rect(rng, rng.randint(0, 3))
+    T = gen_rect(rng, rng.randint(0, 3), leaf=(["complex128", "complex64"] if rng.random() < 0.1 else None))
     depth, dtype = R.list_depth(T)
     red = rng.choice(REDUCERS)
+    if dtype == "complex64" and red == "prod":
+        return None
     vals = [L.gen_value(rng, T) for _ in range(L.toplen(rng, 0, 4))]
     if red in ("min", "max", "argmin", "argmax") and "nan" in repr(vals):
         return None
     axis = rng.randint(-depth, depth - 1)
     lay = L.Enc(rng).encode(vals, T)
     mask, keep = rng.random() < 0.4, rng.random() < 0.3
+    if dtype.startswith("complex") and red in ("min", "max"):
+        mask = True
     ref = R.reduce_typed(vals, T, axis, red, mask, keep)
     line = "reduce %s %d %d %d %s" % (red, axis, mask, keep, lay.tokens())
     return Case(line, expect_reduce(ref, "%s(axis=%d, mask_identity=%s, keepdims=%s) of %r" % (red, axis, mask, keep, vals), red, dtype),
@@ -856,7 +864,7 @@ def fam_concat(rng):
         elif mode == "same":
             Ts.append(T0)
         elif mode == "numeric":
-            Ts.append(_retype_leaf(T0, rng.choice(LEAF_ALL)))
+            Ts.append(_retype_leaf(T0, rng.choice(LEAF_ALL)))      # (no complex leaves: KF-C08-real-with-complex-merge)
         else:
             Ts.append(gen_pure(rng, rng.randint(0, 2), regular=0.15, leafrec=0.15))
     def has_option(t):
